@@ -215,6 +215,17 @@ class Faults(Sub):
                             viol.append(V("sql-failed-event-acknowledged", "a failed event is not acknowledged", i=i, k=k))
                         if w and any(f[0] == "EVENT" and f[2]["id"] == history[i]["id"] for f in w.frames(nw)):
                             viol.append(V("sql-failed-event-broadcast", "nothing is broadcast for a rolled back event", i=i, k=k))
+                    retried = not viol and (i + k) % 2 == 1
+                    if retried:
+                        # the client sends the failed event again: it applies as if the failure had never happened
+                        labels.append("failed-event-resubmitted")
+                        await apply(rig, history[i], c)
+                        got = await raw(rig)
+                        if rig.stuck or got != S[i + 1]:
+                            viol.append(V("%s-failed-event-not-applied-when-resubmitted" % backend,
+                                          "a failure while applying one event does not prevent later events (the same event, "
+                                          "sent again) from being applied", backend=backend, i=i, k=k, of=muts[i],
+                                          event=history[i], diff=_diff(S[i + 1], got), waiting=rig.stuck))
                     if not viol:
                         # later events still apply: compare with the clean run of the history without event i
                         for ev in history[i + 1:]:
@@ -227,6 +238,9 @@ class Faults(Sub):
                         else:
                             final = await raw(rig)
                             key = i
+                            if retried:
+                                key = "all"
+                                without_cache[key] = S[-1]
                             if key not in without_cache:
                                 d2, _ = await self._clean(backend, history[:i] + history[i + 1:])
                                 without_cache[key] = d2[-1]
